@@ -2,7 +2,7 @@
    processes and hash seeds (C14)."""
 import os, json, subprocess, filecmp, glob, shutil, signal
 
-FAMILIES = ["chain", "chain_bonds", "dots", "dot_rings", "branches", "brackets", "nested8"]
+FAMILIES = ["chain", "chain_bonds", "dots", "dot_rings", "branches", "comb", "comb_stereo", "brackets", "nested8"]
 SPAN_LIMIT = 64 * 1024   # bytes of stack between the shallowest and deepest follower callback, nesting <= 8
 
 
